@@ -33,7 +33,7 @@ Fixpoint first_bad (i : Z) (u : list string) (m0 : list wallet) (r0 : reloaded)
         | RLoaded ws => eqb_view (not_unloaded u' ws) (non_temp m)
         end
         && nodup_fps [] m
-        && match e with None => true | Some _ => eqb_view m m0 && eqb_reloaded r r0 end in
+        && match e with None => true | Some msg => negb (String.eqb msg "PANIC") && eqb_view m m0 && eqb_reloaded r r0 end in
       if ok then first_bad (i + 1) u' m r rest else i
   end.
 Definition prop_seq (l : list (op * error * list wallet * reloaded)) : bool :=
